@@ -645,16 +645,24 @@ def process_template(unit, tpl_path=None, canary=False):
     ctx = Ctx(unit)
     with open(tpl_path, encoding='utf-8') as f:
         lines = f.read().split('\n')
-    # includes (one level)
-    exp = []
-    for ln in lines:
-        s = ln.strip()
-        if s.startswith('//@include '):
-            with open(os.path.join(CONTRACTS, s[len('//@include '):].strip()), encoding='utf-8') as f:
-                exp.extend(f.read().split('\n'))
-        else:
-            exp.append(ln)
-    lines = exp
+    # includes (recursive, each file at most once)
+    seen = set()
+
+    def expand(ls, depth=0):
+        exp = []
+        for ln in ls:
+            s = ln.strip()
+            if s.startswith('//@include '):
+                rel = s[len('//@include '):].strip()
+                if rel in seen:
+                    continue
+                seen.add(rel)
+                with open(os.path.join(CONTRACTS, rel), encoding='utf-8') as f:
+                    exp.extend(expand(f.read().split('\n'), depth + 1))
+            else:
+                exp.append(ln)
+        return exp
+    lines = expand(lines)
     out = []
     fns = []          # names of functions under contract: "Type::fn"
     unannot = []
